@@ -46,6 +46,7 @@ unsigned verif_rel_take(void);
 void verif_rel_note(void);
 int verif_tracing(void);
 void verif_heap_mark(void);
+int verif_sigblk(void);
 long verif_heap_kib(void);
 unsigned long verif_env(const char *name, unsigned long dflt);
 
